@@ -333,7 +333,9 @@ func checkCholHist(c cholHistCase) *vk.Failure {
 		lamN, _ := jacobiEig(An, false)
 		if lamN[0] > 0 {
 			k2 := lamN[nn-1] / lamN[0]
-			if 1e3*float64(nn)*eps*k2 < 0.1 {
+			// kappa of the represented matrix is known only if the granted
+			// reconstruction tolerance is small against lambda_min of the model
+			if 1e3*float64(nn)*eps*k2 < 0.1 && tol <= 1e-3*lamN[0] {
 				cond := recv.Cond()
 				fn := float64(nn)
 				recomputed := !(op.Kind == "zero" || op.Kind == "scale" || op.Kind == "clone")
@@ -547,7 +549,7 @@ func checkLUHist(c luHistCase) *vk.Failure {
 			tainted = false // receiver was produced by Factorize (ok == true)
 		}
 		cond := recv.Cond()
-		if 1e3*float64(n)*eps*kinf < 0.1 {
+		if 1e3*float64(n)*eps*kinf < 0.1 && tol*frob(inv) < 1e-3 {
 			if !(cond >= kinf*(1-1e-3)/estFactor) {
 				return failf("rankone-cond-lower", "%s: Cond()=%g but kappa_inf of the updated matrix is %g", desc, cond, kinf)
 			}
